@@ -40,7 +40,8 @@ def run(hname, protos, offers, src, dst):
     made = []
     for (f, t, fails) in offers:
         def factory(adaptee, t=t, fails=fails):
-            if fails:
+            # fails: 0 never, 1 always, 2 a CONDITIONAL factory that declines the original object but accepts an adapter
+            if fails == 1 or (fails == 2 and not isinstance(adaptee, Adapter)):
                 return None
             d = getattr(adaptee, "depth", 0) + 1
             cls = type("Ad_%s" % protos[t].__name__, (Adapter, protos[t]), {})
@@ -58,7 +59,7 @@ def run(hname, protos, offers, src, dst):
     def search(cur, used, length):
         nonlocal best
         for i, (f, t, fails) in enumerate(offers):
-            if i in used or fails or not provides(cur, protos[f]):
+            if i in used or fails == 1 or (fails == 2 and length == 0) or not provides(cur, protos[f]):
                 continue
             if provides(protos[t], protos[dst]):
                 if best is None or length + 1 < best:
@@ -95,8 +96,10 @@ def main():
             if len(combos) > 400:
                 combos = random.sample(combos, 400)
             for combo in combos:
-                for failmask in range(1 << k) if k <= 3 else [0, (1 << k) - 1, random.getrandbits(k)]:
-                    offers = [(f, t, bool(failmask >> i & 1)) for i, (f, t) in enumerate(combo)]
+                modes = list(itertools.product((0, 1, 2), repeat=k)) if k <= 3 else [(0,) * k, (1,) * k, tuple(random.choice((0, 1, 2)) for _ in range(k)),
+                                                                                       tuple(random.choice((0, 2)) for _ in range(k))]
+                for mode in modes:
+                    offers = [(f, t, mode[i]) for i, (f, t) in enumerate(combo)]
                     for src in range(n):
                         for dst in range(n):
                             cases += 1
@@ -104,7 +107,7 @@ def main():
                             if r:
                                 viol.append("%s offers=%r %s->%s: %s" % (hname, offers, protos[src].__name__, protos[dst].__name__, r))
     print(json.dumps(dict(cases=cases, bound="3 hierarchies of 4 protocols, all offer multisets of <= %d offers (sampled to 400 per size), "
-                                             "every fail mask (<= 3 offers), every source and target" % MAXOFF, violations=viol[:30])))
+                                             "every assignment of {succeeds, declines, declines the original object only} to the factories (<= 3 offers), every source and target" % MAXOFF, violations=viol[:30])))
 
 
 if __name__ == "__main__":
